@@ -397,6 +397,40 @@ def sx_cfg_norm(s):
 
 # ------------------------------------------------------------------ lib stream
 
+def entry_of(cfg, pcase=None, fcase=None):
+    """The typegen entry save_to_tauri_config writes for cfg (naming conventions replaceable / omitted)."""
+    e = {"projectPath": cfg["project_path"], "outputPath": cfg["output_path"], "validationLibrary": cfg["validation_library"],
+         "verbose": bool(cfg["verbose"]), "visualizeDeps": bool(cfg["visualize_deps"]), "includePrivate": bool(cfg["include_private"]),
+         "typeMappings": cfg["type_mappings"], "excludePatterns": cfg["exclude_patterns"], "includePatterns": cfg["include_patterns"],
+         "force": bool(cfg["force"])}
+    if pcase is not None:
+        e["defaultParameterCase"] = pcase
+    if fcase is not None:
+        e["defaultFieldCase"] = fcase
+    return e
+
+
+def resave_case(rng, i):
+    """A document that already holds an entry for (almost) the settings about to be written: equal on all
+    fields but one or two (second save / init re-run over an existing entry)."""
+    cfg = gen_cfg(rng)
+    cfg["project_path"] = "p" + rng.choice("abc")            # valid, created by the driver
+    cfg["validation_library"] = rng.choice(["zod", "none"])
+    old = entry_of(cfg, rng.choice([None] + CASES_), rng.choice([None] + CASES_))
+    r = rng.random()
+    if r < 0.5:
+        cfg["default_parameter_case"] = rng.choice(CASES_)
+        cfg["default_field_case"] = rng.choice(CASES_)
+    elif r < 0.8:
+        k = rng.choice(["outputPath", "verbose", "force", "includePrivate", "excludePatterns", "typeMappings", "validationLibrary"])
+        old[k] = {"outputPath": "./elsewhere", "validationLibrary": "zod" if cfg["validation_library"] == "none" else "none",
+                  "excludePatterns": ["old"], "typeMappings": {"Old": "string"}}.get(k, not old[k] if isinstance(old[k], bool) else None)
+    if rng.random() < 0.3:
+        old["extraKey"] = 1
+    doc = {"productName": "app", "build": {"n": 1.5}, "plugins": {"shell": {"open": True}, "typegen": old}}
+    return {"id": i, "text": json.dumps(doc, ensure_ascii=False), "cfg": cfg, "mkproj": True}
+
+
 def lib_case(rng, i, text=None, cfg=None, mkproj=None):
     return {"id": i, "text": gen_doc_text(rng) if text is None else text,
             "cfg": gen_cfg(rng) if cfg is None else cfg,
@@ -425,6 +459,11 @@ LIB_CORPUS = [
     ("path shape: empty string", '{"a":1}', {"project_path": ""}, False),
     ("path shape: a file where a directory is expected exists", '{"a":1}', {"project_path": "notes.txt"}, False),
     ("path shape: symlink to a directory exists", '{"a":1}', {"project_path": "linkdir/"}, False),
+    ("second save differing only in the naming conventions (seeded C19-3)",
+     json.dumps({"a": 1, "plugins": {"typegen": entry_of(dict(DEFAULT_CFG_EARLY := {"project_path": "./pproj", "output_path": "./src/generated", "validation_library": "none", "verbose": False, "visualize_deps": False, "include_private": False, "type_mappings": None, "exclude_patterns": None, "include_patterns": None, "force": False}), "camelCase", "snake_case")}}),
+     {"default_parameter_case": "snake_case", "default_field_case": "kebab-case"}, True),
+    ("save over an entry without naming conventions", json.dumps({"plugins": {"typegen": entry_of(DEFAULT_CFG_EARLY)}}),
+     {"default_field_case": "camelCase"}, True),
     ("plugins null", '{"plugins":null,"x":{"plugins":{"typegen":1}}}', {}, True),
     ("duplicate key", '{"plugins":[1],"plugins":{"a":1}}', {}, True),
     ("root scalar", '5', {}, True),
@@ -520,7 +559,7 @@ def lib_cases(tier, rng):
     ncorp = len(cases)
     n = 4000 if tier == "quick" else 60000
     for _ in range(n):
-        cases.append(lib_case(rng, 0))
+        cases.append(lib_case(rng, 0) if rng.random() > 0.08 else resave_case(rng, 0))
     # malformed stream
     nbad = 300 if tier == "quick" else 4000
     for t in BAD_TEXTS:
